@@ -80,10 +80,11 @@ Paths(d) == CrashPairs(d) \cup {<<s>> : s \in V1(d)} \cup (IF Depth2 THEN {<<s1,
 Strict(ids) == \A j \in 1..(Len(ids) - 1) : ids[j] < ids[j + 1]
 HasTraverse(p) == \E j \in 1..Len(p) : p[j].ty = "TRAVERSE"
 HasKeyword(p) == \E j \in 1..Len(p) : p[j].ty = "KEYWORD"       \* parent() legitimately repeats an ancestor
+HasCollector(p) == \E j \in 1..Len(p) : p[j].ty = "COLLECTOR"   \* (a)+(a) legitimately repeats a node
 SelWellFormed(d, p) ==
   LET r == Sel(d, p) ids == FlatIds(r.res) IN
   /\ \A j \in 1..Len(ids) : ids[j] \in 1..Len(d)                      \* results are positions of the document
-  /\ (r.err = "" /\ ~HasTraverse(p) /\ ~HasKeyword(p) /\ ~r.info) => Strict(ids)   \* document order, no repeats
+  /\ (r.err = "" /\ ~HasTraverse(p) /\ ~HasKeyword(p) /\ ~HasCollector(p) /\ ~r.info) => Strict(ids)   \* document order, no repeats
   /\ (Len(p) = 0 /\ ~(d[1].k = "s" /\ d[1].t = "null")) => ids = <<1>>   \* the empty path is the root
 
 MineShard == (Len(doc) + Len(doc[Len(doc)].v) + Len(doc[Len(doc)].keys)) % Shards = Shard
